@@ -1,5 +1,7 @@
 import RosuModel.Lemmas.CurveField
 import RosuModel.Lemmas.CurveField2
+import RosuModel.Lemmas.CurveField3
+import RosuModel.Lemmas.CurveReal
 
 /-!
 # C09 (slider path mathematics) — ranges of what the curve hands to the difficulty pipelines
@@ -112,5 +114,52 @@ theorem position_at_empty (c : Curve K K) (h : c.path.size = 0) (p : K) :
 example : ∃ c : Curve ℚ ℚ, c.path.size ≤ c.lengths.size ∧
     c.lengths.toList.Pairwise (· ≤ ·) ∧ 0 < c.path.size :=
   ⟨⟨#[⟨0, 0⟩, ⟨3, 4⟩], #[0, 5]⟩, by decide, by simp, by decide⟩
+
+/-! ## end to end: what `Curve::new` returns -/
+
+/-- **`Curve::new`, every mode, every control-point list**: cumulative lengths sorted, non-negative,
+starting at 0, `dist() ≥ 0`.  The hypotheses on `sqrt` are facts of the real square root: `0 ≤ √x`,
+`√0 = 0` and the triangle inequality of the model's `distance` — the last two are what keeps the
+osu!-only `optimized_len` (polyline length minus chord length of the removed catmull vertices)
+non-negative. -/
+theorem curve_lengths_sorted (hs : ∀ x, 0 ≤ T.sqrt x) (h0 : T.sqrt 0 = 0)
+    (htri : ∀ a b c : Pos K, distance (fieldArith T) a c ≤
+      distance (fieldArith T) a b + distance (fieldArith T) b c)
+    (fuel : Nat) (isOsu : Bool) (pts : Array (CP K)) (expected : Option K)
+    (prev : Array (Pos K)) (bez : Bez K) (c : Curve K K) (b' : Bez K)
+    (h : curveNew (fieldArith T) fuel isOsu pts expected prev bez = .ok (c, b')) :
+    c.lengths.toList.Pairwise (· ≤ ·) ∧ (∀ l ∈ c.lengths.toList, 0 ≤ l) ∧
+      c.lengths[0]? = some 0 ∧ 0 ≤ dist (fieldArith T) c.lengths :=
+  curveNew_lengths T hs h0 htri fuel isOsu pts expected prev bez c b' h
+
+/-- non-vacuity: the real square root satisfies the three hypotheses -/
+example : (∀ x, 0 ≤ realTransc.sqrt x) ∧ realTransc.sqrt 0 = 0 ∧
+    ∀ a b c : Pos ℝ, distance (fieldArith realTransc) a c ≤
+      distance (fieldArith realTransc) a b + distance (fieldArith realTransc) b c :=
+  ⟨real_sqrt_nonneg, real_sqrt_zero, real_distance_tri⟩
+
+/-- taiko / catch / mania (`optimized_len` is never touched): only `0 ≤ √x` is needed. -/
+theorem curve_lengths_sorted_non_osu (hs : ∀ x, 0 ≤ T.sqrt x)
+    (fuel : Nat) (pts : Array (CP K)) (expected : Option K)
+    (prev : Array (Pos K)) (bez : Bez K) (c : Curve K K) (b' : Bez K)
+    (h : curveNew (fieldArith T) fuel false pts expected prev bez = .ok (c, b')) :
+    c.lengths.toList.Pairwise (· ≤ ·) ∧ (∀ l ∈ c.lengths.toList, 0 ≤ l) ∧
+      c.lengths[0]? = some 0 ∧ 0 ≤ dist (fieldArith T) c.lengths :=
+  curveNew_lengths_nonosu T hs fuel pts expected prev bez c b' h
+
+/-- **Every nested-object position, lazy end position and catch x-position the converters take from
+the curve lies in the bounding box of the curve's vertices** (`position_at` of the curve `Curve::new`
+returned, any progress). -/
+theorem curve_position_in_bounding_box (hs : ∀ x, 0 ≤ T.sqrt x) (h0 : T.sqrt 0 = 0)
+    (htri : ∀ a b c : Pos K, distance (fieldArith T) a c ≤
+      distance (fieldArith T) a b + distance (fieldArith T) b c)
+    (fuel : Nat) (isOsu : Bool) (pts : Array (CP K)) (expected : Option K)
+    (prev : Array (Pos K)) (bez : Bez K) (c : Curve K K) (b' : Bez K) (hb : BezWF bez)
+    (h : curveNew (fieldArith T) fuel isOsu pts expected prev bez = .ok (c, b'))
+    (hne : 0 < c.path.size) (lo hi : Pos K)
+    (hbox : ∀ v ∈ c.path.toList, lo.x ≤ v.x ∧ v.x ≤ hi.x ∧ lo.y ≤ v.y ∧ v.y ≤ hi.y) (p : K) :
+    ∃ q, positionAt (fieldArith T) c p = .ok q ∧
+      lo.x ≤ q.x ∧ q.x ≤ hi.x ∧ lo.y ≤ q.y ∧ q.y ≤ hi.y :=
+  curveNew_positionAt_in_bbox T hs h0 htri fuel isOsu pts expected prev bez c b' hb h hne lo hi hbox p
 
 end Rosu.Curve
